@@ -747,3 +747,42 @@ mut("C05", "triggers_not_drained", "client triggers are read without draining (f
     ("src/shared/event/client_trigger.rs", "        for FromClient { client, event } in client_events.drain() {", "        for FromClient { client, event } in client_events.update_drain() {"))
 mut("C05", "all_events_unordered", "event channels ignore the requested channel kind", ["channel-from-registration"],
     (CE, "            .create_client_channel(channel);", "            .create_client_channel(if cfg!(debug_assertions) { Channel::Unordered } else { channel });"))
+
+# ------------------------------------------------------------------ C13
+mut("C13", "client_send_unconditional", "client event send system loses its run condition", ["client::event::send/run-conditions", "consumers", "Connected"],
+    ("src/client/event.rs", "                    send.run_if(client_connected),\n", "                    send,\n"))
+mut("C13", "local_resend_when_connected", "client-side local re-emission also runs while connected", ["client::event::resend_locally/run-conditions"],
+    ("src/client/event.rs", "                    resend_locally.run_if(server_or_singleplayer),", "                    resend_locally.run_if(not(client_connecting)),"))
+mut("C13", "singleplayer_includes_connecting", "server_or_singleplayer treats a connecting client as singleplayer", ["server_or_singleplayer/shape"],
+    ("src/shared/common_conditions.rs", "    client.is_none_or(|client| client.is_disconnected())", "    client.is_none_or(|client| !client.is_connected())"))
+mut("C13", "connected_condition_connecting_too", "client_connected is true while connecting", ["client_connected/shape", "mutually-exclusive"],
+    ("src/shared/common_conditions.rs", "    client.is_some_and(|client| client.is_connected())\n}\n\n/// Returns `true` if the server stopped", "    client.is_some_and(|client| !client.is_disconnected())\n}\n\n/// Returns `true` if the server stopped") if False else
+    ("src/shared/backend/replicon_client.rs", "    pub fn is_connected(&self) -> bool {\n        self.status == RepliconClientStatus::Connected", "    pub fn is_connected(&self) -> bool {\n        self.status != RepliconClientStatus::Disconnected"))
+mut("C13", "server_events_not_drained_locally", "local re-emission reads server events without draining (re-read by the fresh cursor next frame)", ["drained-by-local-resend"],
+    (SE, "        for ToClients { event, mode } in server_events.drain() {", "        for ToClients { event, mode } in server_events.update_drain() {"))
+mut("C13", "resend_before_send", "server events are drained locally before they are sent/buffered", ["read-then-drain-in-one-chain"],
+    ("src/server/event.rs", """                    send_or_buffer.run_if(server_running),
+                    send_buffered
+                        .run_if(server_running)
+                        .run_if(resource_changed::<ServerTick>),
+                    resend_locally.run_if(server_or_singleplayer),""", """                    resend_locally.run_if(server_or_singleplayer),
+                    send_or_buffer.run_if(server_running),
+                    send_buffered
+                        .run_if(server_running)
+                        .run_if(resource_changed::<ServerTick>),"""))
+mut("C13", "server_trigger_only_when_running", "server-side triggers from local events need a running server (breaks singleplayer)", ["server::event::trigger/run-conditions"],
+    ("src/server/event.rs", "                    trigger.run_if(server_or_singleplayer),", "                    trigger.run_if(server_running),"))
+mut("C13", "events_not_dropped_on_connect", "events emitted before connecting are sent to the new server", ["->Connected", "reset-on-connect", "consumers"],
+    ("src/client/event.rs", """    for event in event_registry.iter_all_client() {
+        let events = events
+            .get_mut_by_id(event.events_id())
+            .expect("events resource should be accessible");
+
+        // SAFETY: passed pointer was obtained using this event data.
+        unsafe { event.reset(events.into_inner()) };
+    }
+
+    for event in event_registry.iter_all_server() {
+        let queue = queues""", """    let _ = &mut events;
+    for event in event_registry.iter_all_server() {
+        let queue = queues"""))
